@@ -238,8 +238,9 @@ class QintImp(int, Qtype):
 
         # If one operand is an even constant, use mul_even_const
         if cls.is_const(tleft) or cls.is_const(tright):
+            # (if both are constants, tright is the constant and tleft the number)
             t_num = tleft if cls.is_const(tright) else tright
-            t_const = tleft if cls.is_const(tleft) else tright
+            t_const = tright if cls.is_const(tright) else tleft
             const = cast(int, cast(Qtype, t_const[0]).from_bool(t_const[1]))
 
             if const % 2 == 0:
